@@ -358,7 +358,7 @@ func c10CheckFn(p *Program, r *Report) {
 				if reach[s.pred] {
 					return true
 				}
-			} else if reach[s.ret.Block()] {
+			} else if s.reachedIn(reach) {
 				return true
 			}
 		}
